@@ -131,7 +131,7 @@ def check_C01(chk):
             c.update(nsend=0, nrecv=0, nshm=0)
     jobs.append((bins["inprocess"], None, inproc, "inprocess", False))
     items = run_parallel(jobs)
-    fails, bad = judge(chk, items, lambda it: not it["case"].get("faults"), "c01", near_boundary)
+    fails, bad = judge(chk, items, lambda it: not it["case"].get("faults") and not it["case"].get("rintr"), "c01", near_boundary)
     chk.coverage["rule"] = ("frag driver: per effective SO_SNDBUF value S (shim-reported) every length in {0,1,7,8,9} u {k*cap+d, k*fs+d, "
                             "cap+(k-1)*fs+d, k*(cap+8)+d : k=1..4} (d dense for S=4096 and the system default, 11 offsets otherwise) "
                             "plus random lengths, at platform / bytes / typed level, default + memfd + in-process builds; "
